@@ -48,6 +48,13 @@ package history
 //@   invariant forall a int :: 0 <= a && a < len(queries) ==> (exists k int :: 0 <= k && k < len(sh.Entries) && sh.Entries[k].Query == queries[a])
 //@   decreases i + 1
 
+// The pattern view writes nothing the history owns (no modifies clause: sorting must happen on a
+// copy, never on the log itself) and lists no more than the log holds.
+//@ func (*SearchHistory).GetEntriesByPattern
+//@   ensures[C16.pattern-len] len(result) <= len(sh.Entries)
+//@ loop 1
+//@   invariant[C16.pattern-copy] fresh(matches) && len(matches) <= $i
+
 //@ func (*SearchHistory).GetStats
 //@   ensures[C16.stats-total] result.TotalSearches == len(sh.Entries)
 
